@@ -262,6 +262,116 @@ func Verif_C06_Dispatch() {
 	verifsym.Reach("end")
 }
 
+// Verif_C06_DeferTree: generator gb registers one callback per type (A, B, D);
+// every callback registers, while it runs, a symbolic number (0..2) of further
+// callbacks, down to depth 3 - every shape of callback tree. Each registered
+// callback runs exactly once, after the package's last GenerateType and before
+// the file is written (its rendering is in the file).
+func Verif_C06_DeferTree(ntypes int) {
+	vReset()
+	w := vNewWorld()
+	en := map[string][]string{"gengo:gb": {"true"}}
+	names := []string{"A", "B", "D"}[:ntypes]
+	var specs []vTypeSpec
+	for _, n := range names {
+		specs = append(specs, vTypeSpec{name: n, tags: en})
+	}
+	w.addPkg("p", true, "h1:p", nil, []string{"p.go"}, specs)
+	pp := "example.com/m/p"
+	var ids []string
+	var grow func(id string, depth int)
+	grow = func(id string, depth int) {
+		ids = append(ids, id)
+		if depth == 3 {
+			return
+		}
+		k := verifsym.IntRange(0, 2)
+		vState.kids[id] = k
+		for i := 0; i < k; i++ {
+			grow(id+"_"+vItoa(i), depth+1)
+		}
+	}
+	for _, n := range names {
+		vSet("gb", pp, n, vActDeferTree)
+		grow(n, 1)
+	}
+	err := w.exec(false, true, nil, &vGenB{})
+	verifsym.Assert(err == nil, "Execute fails")
+	d, ok := verifsym.FSGet(vGenFile(w, "p", "gb"))
+	verifsym.Assert(ok, "no file written although callbacks rendered")
+	for _, id := range ids {
+		n := 0
+		for _, l := range vState.log {
+			if l == "gb:cb:"+id {
+				n++
+			}
+		}
+		verifsym.Assert(n == 1, "a callback registered with Defer (possibly from inside a running callback) did not run exactly once")
+		verifsym.Assert(ok && vHasSub(d, "cb_"+id+"_gb "), "the file was written before a registered callback ran")
+	}
+	ncb := 0
+	for _, l := range vState.log {
+		if vHasPrefix(l, "gb:cb:") {
+			ncb++
+		} else if vHasPrefix(l, "gb:gen:") {
+			verifsym.Assert(ncb == 0, "a deferred callback ran before the package's last GenerateType")
+		}
+	}
+	verifsym.Assert(ncb == len(ids), "callbacks ran that were never registered")
+	verifsym.Observe("log", vState.log)
+	verifsym.Reach("end")
+}
+
+// Verif_C06_TwoPackages: packages a, p, q processed in one run (All); the tag
+// for generator ga is placed symbolically (absent / enabled / false / sub-tag)
+// at global level (Globals nil or non-nil) and in every package's doc; the
+// types carry no ga tag. GenerateType(ga, T) must be called for a package's
+// type exactly according to THAT package's effective tags (its own doc over the
+// globals) - never according to a tag of another package processed before.
+func Verif_C06_TwoPackages() {
+	vReset()
+	lg := verifsym.IntRange(0, 3)
+	lv := []int{verifsym.IntRange(0, 3), verifsym.IntRange(0, 3), verifsym.IntRange(0, 3)}
+	var globals map[string][]string
+	if lg != 0 || verifsym.Bool() {
+		globals = vLevelTags("ga", lg)
+	}
+	w := vNewWorld()
+	rels := []string{"a", "p", "q"}
+	for i, rel := range rels {
+		w.addPkg(rel, true, "h1:"+rel, vLevelLines("ga", lv[i]), []string{rel + ".go"}, []vTypeSpec{{name: "T", tags: map[string][]string{}}})
+		vSet("ga", "example.com/m/"+rel, "T", vActRender)
+	}
+	err := w.exec(false, true, globals, vProtoA())
+	verifsym.Assert(err == nil, "Execute fails")
+	for i, rel := range rels {
+		exact, exactVal, sub := false, "", false
+		for _, l := range []int{lg, lv[i]} {
+			switch l {
+			case 1:
+				exact, exactVal = true, ""
+			case 2:
+				exact, exactVal = true, "false"
+			case 3:
+				sub = true
+			}
+		}
+		want := 0
+		if (exact && exactVal != "false") || (!exact && sub) {
+			want = 1
+		}
+		n := 0
+		for _, l := range vState.log {
+			if vHasPrefix(l, "ga:gen:example.com/m/"+rel+".T:") {
+				n++
+			}
+		}
+		verifsym.Assert(n == want, "GenerateType(ga, T) of a package not called exactly according to that package's own effective tags (package doc over globals)")
+	}
+	verifsym.Observe("log", vState.log)
+	verifsym.Reach("end")
+}
+
 // ---------------------------------------------------------------- C08 (histories)
 
 // Verif_C08_History: three consecutive runs over a module with packages p and
